@@ -62,13 +62,43 @@ def _run_variant(prop, var):
         shutil.rmtree(tmp, ignore_errors=True)
 
 
+
+def _run_seed(prop, sid):
+    """Apply a seeded change (seeded/<id>/patch.diff, written by an independent agent and confirmed to break the
+    property while the 940 tests pass) to a scratch copy; the property's check must report a violation."""
+    d = os.path.join(VERIF, 'seeded', sid)
+    patch = os.path.join(d, 'patch.diff')
+    tmp = tempfile.mkdtemp(prefix='sa_seed_')
+    try:
+        for pkg in ('bumble', 'apps'):
+            if os.path.isdir(os.path.join(REPO, pkg)):
+                shutil.copytree(os.path.join(REPO, pkg), os.path.join(tmp, pkg), ignore=shutil.ignore_patterns('__pycache__'))
+        r = subprocess.run(['patch', '-p1', '-s', '-f', '--no-backup-if-mismatch', '-i', patch], cwd=tmp, capture_output=True, text=True)
+        if r.returncode != 0:
+            return sid, 'stale', 'patch does not apply to the tree under analysis'
+        env = dict(os.environ, SA_REPO=tmp, SA_EVIDENCE_DIR=os.path.join(tmp, '_evidence'), VERIF_TIER='quick')
+        c = subprocess.run([sys.executable, '-m', 'sa.check', prop, '--tier', 'quick'], cwd=VERIF, env=env, capture_output=True, text=True, timeout=600)
+        if c.returncode == 2:
+            return sid, 'error', c.stdout[-300:]
+        rules = sorted({ln.strip().split(' | ')[0] for i, ln in enumerate(c.stdout.splitlines()) if i and c.stdout.splitlines()[i - 1].startswith('VIOLATION')})
+        return sid, ('fired' if c.returncode == 1 else 'MISSED'), rules
+    finally:
+        shutil.rmtree(tmp, ignore_errors=True)
+
+
+def seeds_for(prop):
+    base = os.path.join(VERIF, 'seeded')
+    if not os.path.isdir(base):
+        return []
+    return sorted(s for s in os.listdir(base) if s.startswith(prop + '_') and os.path.exists(os.path.join(base, s, 'patch.diff')))
+
+
 def run_for(prop, rep):
     mod = importlib.import_module(f'sa.props.{prop.lower()}')
     variants = getattr(mod, 'VARIANTS', [])
     if not variants:
         rep.note('no self-test variants defined')
-        return
-    with ThreadPoolExecutor(max_workers=min(16, len(variants))) as ex:
+    with ThreadPoolExecutor(max_workers=max(1, min(16, len(variants)))) as ex:
         results = list(ex.map(lambda v: _run_variant(prop, v), variants))
     fired = sum(1 for _, s, _ in results if s == 'fired')
     silent = sum(1 for _, s, _ in results if s == 'silent')
@@ -85,6 +115,18 @@ def run_for(prop, rep):
     for n, s, d in wrong:
         print(f'  self-test {s}: {n}: {d}')
         rep.control(f'variant {n} ({s})', False)
+    # the seeded changes of this property (independent authors) must be caught as well
+    sids = seeds_for(prop)
+    if sids:
+        with ThreadPoolExecutor(max_workers=min(16, len(sids))) as ex:
+            sres = list(ex.map(lambda x: _run_seed(prop, x), sids))
+        rep.extra['seeded'] = {'detected': sum(1 for _, v, _ in sres if v == 'fired'), 'stale': [n for n, v, _ in sres if v == 'stale'],
+                               'results': [{'seed': n, 'verdict': v, 'rules': d if isinstance(d, list) else []} for n, v, d in sres]}
+        print(f"  seeded changes: {rep.extra['seeded']['detected']} of {len(sids)} detected, {len(rep.extra['seeded']['stale'])} stale")
+        for n, v, d in sres:
+            if v in ('MISSED', 'error'):
+                print(f'  seeded {v}: {n}: {d}')
+                rep.control(f'seeded change {n} ({v})', False)
 
 
 def main():
